@@ -156,7 +156,10 @@ class PortCosmo:
         self.p, self.DH, self.flat, self.om, self.ol, self.ok = port, DH, bool(flat), om, ol, ok
         self.tc = 0.0
         if not self.flat:
-            self.tc = (math.sqrt(ok) if ok > 0 else math.sqrt(-ok)) / DH
+            try:
+                self.tc = (math.sqrt(ok) if ok > 0 else math.sqrt(-ok)) / DH
+            except (ValueError, ZeroDivisionError):      # NaN / zero parameters reported by a mutated implementation
+                self.tc = float("nan")
         self.libm = []
 
     def ez(self, z):
@@ -607,6 +610,12 @@ class Dispatch(Entry):
         return cs
 
     def impl(self, c):
+        try:
+            return self._impl(c)
+        except Exception as e:  # noqa  the constructor or a SCALAR call raised inside the domain: a failing input
+            return {"crash": core.errclass(e), "out": ["err", core.errclass(e)], "tab": []}
+
+    def _impl(self, c):
         import numpy as np
         o = build(c["kw"])
         f = getattr(o, c["meth"])
@@ -656,6 +665,8 @@ class Dispatch(Entry):
         return "(Ok (Ar %s))" % core.clist(v) if k == "ar" else "(Ok (Sc %s))" % cz(v)
 
     def term(self, c, out):
+        if "crash" in out:
+            return "3"
         t = self._term(c, out)
         vals = []
         if out["out"][0] == "ok":
